@@ -140,6 +140,16 @@ def run(ctx) -> None:
                                 force_masked=rng.random() < 0.3)
         laws(ctx, o, arrs, logi, rng)
 
+    # multiplicity: the same flag held by 255 / 256 / 257 / 512 / 1000 vectors, with or without one better vector
+    if ctx.shard == 0:
+        for k in (255, 256, 257, 512, 1000):
+            for worst in (4, 3, 1, 2, 9):
+                for extra in (None, 1, 2, 9, 3):
+                    vectors = [[(worst, False), (1, False)] for _ in range(k)]
+                    if extra is not None:
+                        vectors.append([(extra, False), (rng.choice(POISON), True)])
+                    call(ctx, vectors, rng.choice(["uint8", "int64", "float64"]), f"many{k}")
+                    ctx.count("compare.many_vector_calls")
     # aggregate() over CollectedResults from real windowed stream runs, and the store's roll-up
     from vfw import plumbing  # noqa: PLC0415
 
